@@ -58,6 +58,8 @@ class Environment(object):
                 self.conn = Client(addr)
             except Exception as e:
                 if time.time() - start > 5:
+                    # nobody would ever connect to or stop this process
+                    self.proc.terminate()
                     raise Exception('Supp server launching timeout exceed: ' + str(e))
 
                 time.sleep(0.3)
